@@ -28,17 +28,17 @@ add("C04", W, "exploration", "deterministic simulation: same replica histories a
 add("C05", W, "exploration", "deterministic simulation: pre/post-condition of every add event in simulated histories (merged/restarted states), log draws placed by the simulator",
     "Every add(key, v) event inside simulated histories (states produced by merges, restarts, other entry points) is bracketed: whole-universe estimates, table copy and n_added before and after; all clauses of the statement are evaluated (linear exactness, log step bounds and reserved-range exactness, no other estimate decreases or overshoots, <= 1 changed counter per row, n_added accounting).",
     "Trusts probe ownership for the log clauses; draws come from the simulator-owned batch.", "DESIGN.md §4 C05")
-add("C06", W, "exploration", "deterministic simulation with the randomness seam owned by the simulator: placed draws at the decision boundary, mirrored counter walk (full refinement), refill watch, lower bound on every history",
-    "(a) law probes: counter set to c, one draw placed just below/above/far from base^-(c-nr), unit add must advance iff u < p, no draw in the reserved range, none at the maximum; decode table steps equal 1/p. (b) lower bound min(truth, nr+1) after every event of merge/restart histories. (c) every workload event is mirrored by a reference walk consuming the same batch: resulting table, rand_ptr and refilled batch (== generator's next 2048 draws) must match exactly.",
+add("C06", W, "exploration", "deterministic simulation with the randomness seam owned by the simulator: placed draws at the decision boundary, draw-by-draw reference walk of unit-add events, freshness watch on the batch and the generator, lower bound on every history",
+    "(a) law probes: counter set to c, one draw placed just below/above/far from base^-(c-nr), unit add must advance iff u < p, no draw in the reserved range, none at the maximum; decode table steps equal 1/p. (b) lower bound min(truth, nr+1) after every event of merge/restart histories. (c) per workload event: new batch material is in [0,1) and not the old one, the read position never moves back over handed-out draws and must move when a decision beyond the reserved range was due; events made of unit adds only are compared with a reference walk consuming the same batch (table and read position; either convention for the certain step at c == num_reserved; batch length read from the sketch); in runs that leave the code's generator alone no refill may repeat an earlier one. (d) final counters of N unit adds fed from the code's own refills vs the exact Markov chain (chi-square).",
     "Trusts the reference walk written from the statement; draws within 1e-9 relative of the boundary are skipped (pow rounding).", "DESIGN.md §4 C06")
 add("C09", W, "exploration", "deterministic simulation: every merge delivery checked as a refinement of the per-cell spec, with injected pre-states; one disclosed enumeration sub-mode (log8 all 256x256 pairs)",
     "Every deliver event (file or live snapshot, duplicates, any order) on linear/log16/log8 replicas is checked cell by cell against the statement (saturating sum; exact in reserved range; maximum once sum >= max_count; nearest counter otherwise; never below either input), plus operand unchanged, bookkeeping sums, commutativity and neutral element on clones. Seeded state injection reaches far counters; 2% of log8 runs enumerate all 256x256 pairs of the run's configuration, 2% of log16 runs all 65536 counters against the empty sketch.",
     "Trusts the decode formula of the statement; nearest is judged with 1e-9 relative tolerance (ties and log rounding not prescribed).", "DESIGN.md §4 C09")
 add("C10", W, "exploration", "deterministic simulation: save and crash-restart events at arbitrary points of histories, restored replica vs never-restarted shadow under mirrored draws",
-    "All five classes; save events round-trip through every loader route (class/module, shared_memory False/True): class, parameters, bytes, queries, bookkeeping, merge with the original, foreign class loaders reject. crash_restart events restart a node from the latest or an older snapshot; afterwards the restored primary and a never-saved in-memory shadow must stay byte-equal after every later event under identical draws.",
+    "All five classes; save events round-trip through every loader route (class/module, shared_memory False/True): class, parameters, bytes, queries, bookkeeping, merge with the original, foreign class loaders reject. crash_restart events restart a node from the latest or an older snapshot; afterwards the restored primary and a never-saved in-memory shadow must stay equal (public arrays; key bytes of zero-count heavy-hitter cells masked) after every later event under identical draws; shared loads are read back through an attached peer and through a helper built from the loaded sketch's own args.",
     "Trusts numpy byte comparison of public arrays as 'exactly equal'.", "DESIGN.md §4 C10")
 add("C12", W, "exploration", "deterministic simulation: scheduler-chosen entry point vs single-add shadow under identical draws, byte-equal state after every event",
-    "Each workload event enters through a PRNG-chosen entry point (add with multiplicity, update(list), update(dict), add_ngram, update_ngram) while a shadow sketch receives the canonical expansion as single add(key) calls; both consume the same placed draws; public state must be byte-equal after every event; sketch[key] == query(key).",
+    "Each workload event enters through a PRNG-chosen entry point (add with multiplicity, update(list), update(dict), add_ngram, update_ngram) while a shadow sketch receives the canonical expansion as single add(key) calls; both consume the same placed draws; public state must be equal after every event (key bytes of zero-count heavy-hitter cells masked); sketch[key] == query(key).",
     "Expansion semantics are taken from the statement (window rule, dict order).", "DESIGN.md §4 C12")
 add("C13", W, "exploration", "deterministic simulation: query events interleaved with adds/merges/restarts/views (cache hit and miss paths), oracle from tables and a freshly loaded copy",
     "Histories interleave add/merge/save/restart with query(k, t) events incl. immediate repeats with same/changed threshold and queries through attached views; each answer is checked: <= k pairs, distinct, sorted, count == hh[key] >= threshold, equals the top-k derived from the public tables, every added key above max(threshold,1) present for k=inf, and equal to the answer of HeavyHitters.load(save()).",
@@ -54,7 +54,7 @@ add("C18", W, "exploration", "deterministic simulation: histories that reach and
     "1e-6 relative tolerance for 'decodes to max_count'.", "DESIGN.md §4 C18")
 add("C08", P, "exploration", "deterministic simulation of the real parallel_add: would-be processes as baton-passing threads under a seeded scheduler (7 personalities), simulated queues/processes/clock; sequential-model oracle",
     "The unmodified helpers.parallel_add (filler, logger, n workers, merge rounds, shared-memory attach, monitor loop, __del__ clean-up) runs in one interpreter; the scheduler decides who proceeds at every queue/process/sleep operation and between source lines of helpers.py (sys.monitoring LINE events), and may stall a pre-empted process for simulated seconds; worker counts 1..9, all sketch subsets, list and generator items, arbitrary picklable item objects, callbacks returning python/numpy ints, simulated processing delays. At return: result order/classes, HLL registers == sequential, n_added/n_records exact, C01/C03/C04 bounds w.r.t. the whole stream, every item exactly once, no task left, no segment leaked. One real spawned parallel_add (3 workers, all sketches) runs beside the quick batch as a conformance anchor for the process stub; 5 in the thorough tier.",
-    "SimContext models spawn pickling, bounded FIFO queues, exit codes; feeder threads/pipes are not modelled.", "DESIGN.md §4 C08")
+    "SimContext models spawn pickling, bounded FIFO queues with feeder lag, timed get/put/join, sentinels + connection.wait, Event/Lock/Semaphore/JoinableQueue, exit codes; anything else the tree asks of it is exit 2 (no verdict).", "DESIGN.md §4 C08")
 add("C19", P, "exploration", "deterministic simulation of parallel_add with fault plans: callback raises before/mid/after, worker dies at item/take/pill, under seeded schedules; containment and termination oracles",
     "Fault plans over the same simulated parallel_add (statement-level pre-emption and stalls included): any subset of <= 5 items raises one of 27 exception types (before/mid/after its updates) -> must return, contain every other item's full contribution (lower bounds), n_records counts successful items only; one worker dies with an os._exit-like code or by signal (-9/-15/-11) inside a callback, after taking its k-th item, or at the poison pill -> parallel_add must terminate with an exception; returning a result or hanging (deadlock / livelock detection with step and simulated-time caps) is the violation. Two real spawned runs (callback raising; worker os._exit(7)) anchor the stub in the quick tier, three in the thorough tier.",
     "Worker death is modelled as a BaseException with non-zero exit code (stack unwinds, unlike os._exit).", "DESIGN.md §4 C19")
